@@ -40,6 +40,10 @@ type In struct {
 	Unknown []int   // per source: 0 none, 1 / 2: a dependency on an unknown package first / last in Build-Depends
 	Fold    []int   // per source: 1 = its build-dependency fields are folded (one relation per continuation line)
 	FoldBin []int   // per source: 1 = Binary: folded onto a continuation line
+	Spread  []int   // per source: 0 = Field decides; 1..4 = its q-th dependency goes to field spreads[Spread][q mod len] (+Field mod 3): several fields used at once
+	Pad     [][]int // per source and field: 0..7 extra relations on packages outside the source set
+	PadKind []int   // per source: what the extra relations look like, index into padKinds
+	Pos     []int   // per source: the real relations come first (0) / in the middle (1) / last (2) among the extra ones
 	Arch    string  // amd64 | i386 | kfreebsd-amd64
 	Perm    []int   // input slice order: position p holds source Perm[p]
 }
@@ -311,6 +315,20 @@ func (in In) valid() bool {
 			return false
 		}
 	}
+	if len(in.Spread) != n || len(in.Pad) != n || len(in.PadKind) != n || len(in.Pos) != n {
+		return false
+	}
+	for i := 0; i < n; i++ {
+		if in.Spread[i] < 0 || in.Spread[i] >= len(spreads) || in.PadKind[i] < 0 || in.PadKind[i] >= len(padKinds) ||
+			in.Pos[i] < 0 || in.Pos[i] > 2 || len(in.Pad[i]) != 3 {
+			return false
+		}
+		for _, p := range in.Pad[i] {
+			if p < 0 || p > 7 {
+				return false
+			}
+		}
+	}
 	for i := 0; i < n; i++ {
 		for j := 0; j < n; j++ {
 			d := in.Dep[i][j]
@@ -325,6 +343,53 @@ func (in In) valid() bool {
 	return true
 }
 
+// spreads[s][q mod len]: the field of a source's q-th dependency (0 Build-Depends, 1 -Arch, 2 -Indep).
+var spreads = [][]int{nil, {1, 2, 0}, {2, 1, 0}, {1, 2}, {2, 1}}
+
+var padKinds = []string{"unknown packages", "mixed: unknown, substvar, not admitted [arm64], admitted [linux-any], unknown | unknown"}
+
+// padRel: the m-th extra relation of field k of a source. None of these names is built by any source, so the
+// model never gets an edge from them; what varies is how many of them the architecture filter lets through.
+func padRel(kind, k, m int) rel {
+	name := fmt.Sprintf("pad%d%c", k, 'a'+m)
+	if kind == 1 {
+		switch m % 5 {
+		case 1:
+			return rel{[]alt{{Name: name + ":Depends", Subst: true}}}
+		case 2:
+			return rel{[]alt{{Name: name, Archs: []string{"arm64"}}}}
+		case 3:
+			return rel{[]alt{{Name: name, Ver: ">= 2", Archs: []string{"linux-any"}}}}
+		case 4:
+			return rel{[]alt{{Name: name}, {Name: name + "-alt"}}}
+		}
+	}
+	return rel{[]alt{{Name: name}}}
+}
+
+// norm fills the dimensions an older artefact does not have with their defaults.
+func (in In) norm() In {
+	n := in.N
+	if n < 1 || n > 6 {
+		return in
+	}
+	if in.Spread == nil {
+		in.Spread = make([]int, n)
+	}
+	if in.PadKind == nil {
+		in.PadKind = make([]int, n)
+	}
+	if in.Pos == nil {
+		in.Pos = make([]int, n)
+	}
+	if in.Pad == nil {
+		for i := 0; i < n; i++ {
+			in.Pad = append(in.Pad, make([]int, 3))
+		}
+	}
+	return in
+}
+
 // fieldRel is one relation of one field of one source, with the dependency it stands for (j<0: none).
 type fieldRel struct {
 	r      rel
@@ -334,13 +399,16 @@ type fieldRel struct {
 // fields returns the relations of source i per build-dependency field, in rendering order.
 func (in In) fields(i int) [3][]fieldRel {
 	var f [3][]fieldRel
-	if in.Unknown[i] == 1 {
-		f[0] = append(f[0], fieldRel{rel{[]alt{{Name: unknownPkg}}}, -1, 0})
-	}
+	q := 0
 	for j := 0; j < in.N; j++ {
 		if in.Dep[i][j] == 0 {
 			continue
 		}
+		fld := in.Field[i][j]
+		if sp := spreads[in.Spread[i]]; sp != nil {
+			fld = (sp[q%len(sp)] + in.Field[i][j]) % 3
+		}
+		q++
 		for _, r := range decorate(in.Deco[i][j], binName(j, in.Dep[i][j]), in.third(i, j)) {
 			fr := fieldRel{r, -1, 0}
 			for _, a := range r.Alts {
@@ -348,8 +416,34 @@ func (in In) fields(i int) [3][]fieldRel {
 					fr.j, fr.bin = j, in.Dep[i][j]
 				}
 			}
-			f[in.Field[i][j]] = append(f[in.Field[i][j]], fr)
+			f[fld] = append(f[fld], fr)
 		}
+	}
+	// the extra relations: real ones first / in the middle / last
+	for k := 0; k < 3; k++ {
+		p := in.Pad[i][k]
+		if p == 0 {
+			continue
+		}
+		before := 0
+		switch in.Pos[i] {
+		case 1:
+			before = (p + 1) / 2
+		case 2:
+			before = p
+		}
+		var out []fieldRel
+		for m := 0; m < before; m++ {
+			out = append(out, fieldRel{padRel(in.PadKind[i], k, m), -1, 0})
+		}
+		out = append(out, f[k]...)
+		for m := before; m < p; m++ {
+			out = append(out, fieldRel{padRel(in.PadKind[i], k, m), -1, 0})
+		}
+		f[k] = out
+	}
+	if in.Unknown[i] == 1 {
+		f[0] = append([]fieldRel{{rel{[]alt{{Name: unknownPkg}}}, -1, 0}}, f[0]...)
 	}
 	if in.Unknown[i] == 2 {
 		f[0] = append(f[0], fieldRel{rel{[]alt{{Name: unknownPkg}}}, -1, 0})
@@ -526,7 +620,8 @@ type harnessProblem struct{ msg string }
 // rowKey identifies everything dscText(i) and the edges into i depend on.
 func (in In) rowKey(i int) string {
 	b := make([]byte, 0, 8+4*in.N)
-	b = append(b, byte(i), byte(in.Unknown[i]), byte(in.Fold[i]), byte(in.FoldBin[i]))
+	b = append(b, byte(i), byte(in.Unknown[i]), byte(in.Fold[i]), byte(in.FoldBin[i]),
+		byte(in.Spread[i]), byte(in.PadKind[i]), byte(in.Pos[i]), byte(in.Pad[i][0]), byte(in.Pad[i][1]), byte(in.Pad[i][2]))
 	for j := 0; j < in.N; j++ {
 		b = append(b, byte(in.NB[j]), byte(in.Dep[i][j]), byte(in.Field[i][j]), byte(in.Deco[i][j]))
 	}
@@ -650,6 +745,7 @@ var parsedArch = func() map[string]dependency.Arch {
 // check is THE oracle: a plain function of the input (cache only memoises per-row work: ParseDsc of the
 // rendered text and the model edges of that row).
 func check(scen string, in In, cache parseCache) verdict {
+	in = in.norm()
 	if !in.valid() {
 		return verdict{class: "invalid-input"}
 	}
@@ -875,8 +971,10 @@ func baseGraphs(n int) []graph {
 }
 
 func blank(n int) In {
-	in := In{N: n, NB: make([]int, n), Unknown: make([]int, n), Fold: make([]int, n), FoldBin: make([]int, n), Arch: "amd64"}
+	in := In{N: n, NB: make([]int, n), Unknown: make([]int, n), Fold: make([]int, n), FoldBin: make([]int, n), Arch: "amd64",
+		Spread: make([]int, n), PadKind: make([]int, n), Pos: make([]int, n)}
 	for i := 0; i < n; i++ {
+		in.Pad = append(in.Pad, make([]int, 3))
 		in.Dep = append(in.Dep, make([]int, n))
 		in.Field = append(in.Field, make([]int, n))
 		in.Deco = append(in.Deco, make([]int, n))
@@ -893,8 +991,12 @@ func clone(b In) In {
 	in.Fold = append([]int(nil), b.Fold...)
 	in.FoldBin = append([]int(nil), b.FoldBin...)
 	in.Perm = append([]int(nil), b.Perm...)
-	in.Dep, in.Field, in.Deco = nil, nil, nil
+	in.Spread = append([]int(nil), b.Spread...)
+	in.PadKind = append([]int(nil), b.PadKind...)
+	in.Pos = append([]int(nil), b.Pos...)
+	in.Dep, in.Field, in.Deco, in.Pad = nil, nil, nil, nil
 	for i := 0; i < b.N; i++ {
+		in.Pad = append(in.Pad, append([]int(nil), b.Pad[i]...))
 		in.Dep = append(in.Dep, append([]int(nil), b.Dep[i]...))
 		in.Field = append(in.Field, append([]int(nil), b.Field[i]...))
 		in.Deco = append(in.Deco, append([]int(nil), b.Deco[i]...))
@@ -963,19 +1065,42 @@ func (w *witnesses) shardDone(total int, expired bool, st *mc.Stats) {
 
 // explore runs one scenario: all base graphs over n sources × architecture × the given input orders ×
 // all executions with at most k deviations (field, decoration, unknown dependency, folding).
-func explore(r *mc.Run, name string, n, k int, perms [][]int, permNote string, archSet []string, maxDeps, decoN int) {
+type scen struct {
+	name      string
+	n, k      int
+	perms     [][]int
+	archSet   []string
+	maxDeps   int  // -1: all graphs; else only graphs with at most that many dependencies
+	decoN     int  // width of the decoration Deviate point (prefix of decos)
+	layout    bool // per-source field-layout Deviate points (spread over fields, 0..7 extra relations per field, their kind, position)
+	oneBinary bool // only graphs in which every source has one binary
+	onlyLay   bool // ONLY field and layout points deviate (decoration, unknown, folding stay default)
+}
+
+func explore(r *mc.Run, sc scen) {
+	name, n, k, perms, archSet, decoN := sc.name, sc.n, sc.k, sc.perms, sc.archSet, sc.decoN
 	var graphs []graph
 	for _, g := range baseGraphs(n) {
-		if maxDeps < 0 || g.deps(n) <= maxDeps {
-			graphs = append(graphs, g)
+		if sc.maxDeps >= 0 && g.deps(n) > sc.maxDeps {
+			continue
 		}
+		if sc.oneBinary && strings.Trim(string(g[:n]), "\x01") != "" {
+			continue
+		}
+		graphs = append(graphs, g)
 	}
 	const chunk = 16
 	nsh := (len(graphs) + chunk - 1) / chunk
+	points := fmt.Sprintf("per dependency: field (3), decoration (%d); per source: unknown dependency (none/first/last), build-dep fields folded, Binary folded", decoN)
+	if sc.onlyLay {
+		points = "per dependency: field (3)"
+	}
+	if sc.layout {
+		points += "; per source: spread of its dependencies over the three fields (5), extra relations in Build-Depends (0..7), in -Arch (0..2), in -Indep (0..2), kind of extra relations (2), position of the real relations (first/middle/last)"
+	}
 	bounds := map[string]interface{}{"sources": n, "binaries_per_source": "1|2", "base_graphs": len(graphs), "architectures": archSet,
-		"input_orders": permNote, "deviation_bound_k": k, "graphs_restricted_to_at_most_dependencies": maxDeps,
-		"deviation_points": fmt.Sprintf("per dependency: field (3), decoration (%d);", decoN) + " per source: unknown dependency (none/first/last), build-dep fields folded, Binary folded",
-		"decorations":      decoNames(decoN)}
+		"input_orders": "all permutations", "deviation_bound_k": k, "graphs_restricted_to_at_most_dependencies": sc.maxDeps,
+		"one_binary_per_source_only": sc.oneBinary, "deviation_points": points, "decorations": decoNames(decoN)}
 	wit := &witnesses{}
 	r.Scenario(name, bounds, nsh, func(sh int, st *mc.Stats) bool {
 		defer func() { wit.shardDone(nsh, r.Expired(), st) }()
@@ -1009,15 +1134,33 @@ func explore(r *mc.Run, name string, n, k int, perms [][]int, permNote string, a
 							if in.Dep[i][j] != 0 {
 								has = true
 								in.Field[i][j] = x.Deviate(3, "field")
-								in.Deco[i][j] = x.Deviate(decoN, "decoration")
+								if !sc.onlyLay {
+									in.Deco[i][j] = x.Deviate(decoN, "decoration")
+								}
 							}
 						}
-						in.Unknown[i] = x.Deviate(3, "unknown-dependency")
-						if has || in.Unknown[i] != 0 {
-							in.Fold[i] = x.Deviate(2, "fold-build-depends")
+						if !sc.onlyLay {
+							in.Unknown[i] = x.Deviate(3, "unknown-dependency")
+							if has || in.Unknown[i] != 0 {
+								in.Fold[i] = x.Deviate(2, "fold-build-depends")
+							}
+							if in.NB[i] == 2 {
+								in.FoldBin[i] = x.Deviate(2, "fold-binary")
+							}
 						}
-						if in.NB[i] == 2 {
-							in.FoldBin[i] = x.Deviate(2, "fold-binary")
+						if sc.layout {
+							if has {
+								in.Spread[i] = x.Deviate(len(spreads), "spread-over-fields")
+							}
+							in.Pad[i][0] = x.Deviate(8, "extra-relations-build-depends")
+							in.Pad[i][1] = x.Deviate(3, "extra-relations-build-depends-arch")
+							in.Pad[i][2] = x.Deviate(3, "extra-relations-build-depends-indep")
+							if in.Pad[i][0]+in.Pad[i][1]+in.Pad[i][2] > 0 {
+								in.PadKind[i] = x.Deviate(len(padKinds), "kind-of-extra-relations")
+								if has {
+									in.Pos[i] = x.Deviate(3, "position-of-real-relations")
+								}
+							}
 						}
 					}
 				}
@@ -1077,21 +1220,24 @@ func Run(r *mc.Run) {
 	both, three := archs[:2], archs // the third build architecture (non-linux) only where the whole decoration alphabet is explored
 	nFull := len(decos)
 	p1, p2, p3 := permutations(1), permutations(2), permutations(3)
-	const all = "all permutations"
-	explore(r, "graphs-n1-k2", 1, 2, p1, all, both, -1, nBasic)
-	explore(r, "graphs-n2-k2", 2, 2, p2, all, both, -1, nCore)
+	explore(r, scen{name: "graphs-n1-k2", n: 1, k: 2, perms: p1, archSet: both, maxDeps: -1, decoN: nBasic, layout: true})
+	explore(r, scen{name: "graphs-n2-k2", n: 2, k: 2, perms: p2, archSet: both, maxDeps: -1, decoN: nCore, layout: true})
 	if r.Quick() {
-		explore(r, "graphs-n2-k1-alldecorations", 2, 1, p2, all, three, -1, nFull)
-		explore(r, "graphs-n3-k1", 3, 1, p3, all, both, -1, nCore)
-		explore(r, "graphs-n3-k1-upto2deps-alldecorations", 3, 1, p3, all, three, 2, nFull)
-		explore(r, "graphs-n3-k2-upto2deps", 3, 2, p3, all, both, 2, nBasic)
+		explore(r, scen{name: "graphs-n2-k1-alldecorations", n: 2, k: 1, perms: p2, archSet: three, maxDeps: -1, decoN: nFull})
+		explore(r, scen{name: "graphs-n3-k1", n: 3, k: 1, perms: p3, archSet: both, maxDeps: -1, decoN: nCore})
+		explore(r, scen{name: "graphs-n3-k1-upto2deps-alldecorations", n: 3, k: 1, perms: p3, archSet: three, maxDeps: 2, decoN: nFull, layout: true})
+		explore(r, scen{name: "graphs-n3-k2-upto2deps", n: 3, k: 2, perms: p3, archSet: both, maxDeps: 2, decoN: nBasic})
+		// field load: how many relations each field holds and which fields are in use at once
+		explore(r, scen{name: "fieldload-n3-k2", n: 3, k: 2, perms: p3, archSet: both, maxDeps: -1, decoN: nBasic, layout: true, oneBinary: true, onlyLay: true})
 	} else {
-		explore(r, "graphs-n2-k2-alldecorations", 2, 2, p2, all, three, -1, nFull)
-		explore(r, "graphs-n3-k1-alldecorations", 3, 1, p3, all, three, -1, nFull)
-		explore(r, "graphs-n3-k2-upto2deps", 3, 2, p3, all, both, 2, nCore)
-		explore(r, "graphs-n3-k2", 3, 2, p3, all, both, -1, nBasic)
+		explore(r, scen{name: "graphs-n2-k2-alldecorations", n: 2, k: 2, perms: p2, archSet: three, maxDeps: -1, decoN: nFull})
+		explore(r, scen{name: "graphs-n3-k1-alldecorations", n: 3, k: 1, perms: p3, archSet: three, maxDeps: -1, decoN: nFull, layout: true})
+		explore(r, scen{name: "graphs-n3-k2-upto2deps", n: 3, k: 2, perms: p3, archSet: both, maxDeps: 2, decoN: nCore})
+		explore(r, scen{name: "graphs-n3-k2", n: 3, k: 2, perms: p3, archSet: both, maxDeps: -1, decoN: nBasic})
+		explore(r, scen{name: "fieldload-n3-k3", n: 3, k: 3, perms: p3, archSet: both, maxDeps: -1, decoN: nBasic, layout: true, oneBinary: true, onlyLay: true})
+		explore(r, scen{name: "fieldload-n2-k3", n: 2, k: 3, perms: p2, archSet: both, maxDeps: -1, decoN: nBasic, layout: true, onlyLay: true})
 		// n = 4: every graph, every input order, default rendering (plain names: the architecture is irrelevant)
-		explore(r, "graphs-n4-k0", 4, 0, permutations(4), all, []string{"amd64"}, -1, nBasic)
+		explore(r, scen{name: "graphs-n4-k0", n: 4, k: 0, perms: permutations(4), archSet: []string{"amd64"}, maxDeps: -1, decoN: nBasic})
 	}
 	r.Extra["distinct_dsc_texts_parsed_with_ParseDsc"] = atomic.LoadInt64(&textsParsed)
 }
